@@ -272,6 +272,12 @@ func (s *BaseNodeService) executeOperation(operation *types.Operation) error {
 		return fmt.Errorf("processed operation does not match stored operation: %w", err)
 	}
 
+	// only the answer to a reinit operation ends without a message for the board: under any other
+	// operation that event would retire the operation with nothing posted
+	if operation.Event == types.OperationProcessed && storedOperation.Type != types.OperationType(types.ReinitDKG) {
+		return fmt.Errorf("event %s is not a result of a %s operation", operation.Event, storedOperation.Type)
+	}
+
 	// there are no result messages for OperationProcessed event type
 	if operation.Event != types.OperationProcessed {
 		for i, message := range operation.ResultMsgs {
